@@ -84,6 +84,13 @@ def generate(rng, tier):
             if rng.random() < 0.3:
                 rows[rng.randrange(len(rows))] = [0] * L
             cases.append({"kind": "trans2", "rows": rows})
+        if rng.random() < 0.5:
+            # ragged input: trajectories of different lengths (RaggedArray), transitions right at the start of a row
+            rows = [[rng.randrange(3) if rng.random() < 0.5 else 1 for _ in range(rng.choice([2, 2, 3, 4, 6]))]
+                    for _ in range(rng.choice([2, 3, 4]))]
+            if len({len(r) for r in rows}) == 1:
+                rows[0] = rows[0] + [rng.randrange(3)]
+            cases.append({"kind": "transra", "rows": rows})
     return cases
 
 
@@ -101,7 +108,11 @@ def run_impl(c):
     try:
         if c["kind"] == "trans1":
             return {"tt": [[int(x) for x in transitions(np.array(c["rows"][0]))]]}
-        t = transitions(np.array(c["rows"]))
+        if c["kind"] == "transra":
+            from enspara.ra.ra import RaggedArray
+            t = transitions(RaggedArray([np.array(r) for r in c["rows"]]))
+        else:
+            t = transitions(np.array(c["rows"]))
         return {"tt": [[int(x) for x in row] for row in t]}
     except Exception as ex:
         return {"err": type(ex).__name__}
@@ -155,10 +166,7 @@ def oracle(c, r):
     rows = c["rows"]
     exp = [[n for n in range(len(row) - 1) if row[n] != row[n + 1]] for row in rows]
     if r.get("tt") != exp:
-        if c["kind"] == "trans2" and all(len(e) == 0 for e in exp):
-            out.append(("transitions-2d-no-transition-at-all", "rows=%s: %s" % (rows, r)))
-        else:
-            out.append(("transitions", "rows=%s: got %s expected %s" % (rows, r, exp)))
+        out.append(("transitions", "rows=%s: got %s expected %s" % (rows, r, exp)))
     return out
 
 
@@ -202,4 +210,4 @@ def tags(c, r):
     return t
 
 
-ESSENTIAL_TAGS = ["rot-2basin", "rot-3basin", "rot-wide-2basin-buffer", "rot-zero-buffer", "rot-rejected", "trans1", "trans2"]
+ESSENTIAL_TAGS = ["transra", "rot-2basin", "rot-3basin", "rot-wide-2basin-buffer", "rot-zero-buffer", "rot-rejected", "trans1", "trans2"]
